@@ -32,7 +32,7 @@ ANCHORS = ["dagrt.language:AssignBase.get_read_variables", "dagrt.language:Assig
            "dagrt.language:AssignFunctionCall.get_read_variables", "dagrt.language:YieldState.get_read_variables",
            "dagrt.language:ConditionalStatementBase.get_read_variables",
            "dagrt.exec_numpy:NumpyInterpreter.exec_Assign"]
-MIN_NONTRIVIAL = {"quick": 3000, "thorough": 80000}
+MIN_NONTRIVIAL = {"quick": 12000, "thorough": 150000}
 REQUIRED_COUNTERS = {"quick": ["statement_executions_checked", "reads_checked", "writes_checked",
                                "identity_mappings_checked", "handbuilt_statements"],
                      "thorough": ["statement_executions_checked", "reads_checked", "writes_checked",
@@ -41,9 +41,9 @@ SHARD_TIMEOUT = {"quick": 900, "thorough": 3400}
 
 
 def plan(tier, seed):
-    per = 60 if tier == "quick" else 1500
+    per = 200 if tier == "quick" else 2500
     sh = [{"kind": "prog", "seed": f"C08:{seed}:{k}", "count": per} for k in range(12)]
-    per2 = 250 if tier == "quick" else 6000
+    per2 = 1000 if tier == "quick" else 15000
     sh += [{"kind": "single", "seed": f"C08:{seed}:s{k}", "count": per2} for k in range(4)]
     return sh
 
@@ -241,13 +241,21 @@ def gen_single(rng):
         sub = rng.choice([["var", "i"], ["sub", ["var", "idx"], ["var", "i"]]])
         return Assign(rng.choice(["arr", "<state>v"]), (to_pym(sub),), to_pym(g_num(rng, 2, extra=("i",))),
                       loops=loops, **kw)
+    def arg():
+        # sometimes a container of expressions, as the parser produces for "(a, b)" or "[c, <dt>]"
+        r = rng.random()
+        if r < 0.15:
+            return tuple(to_pym(g_num(rng, 1)) for _ in range(rng.choice([1, 2, 3])))
+        if r < 0.25:
+            return [to_pym(g_num(rng, 1)) for _ in range(rng.choice([1, 2]))]
+        return to_pym(g_num(rng, 2))
     if kind == "call":
         kws = rng.sample(["k", "m"], rng.choice([0, 1, 2]))
-        return AssignFunctionCall(("r1",), "<func>f", tuple(to_pym(g_num(rng, 2)) for _ in range(rng.choice([0, 1, 2]))),
-                                  {k: to_pym(g_num(rng, 2)) for k in kws}, **kw)
+        return AssignFunctionCall(("r1",), "<func>f", tuple(arg() for _ in range(rng.choice([0, 1, 2]))),
+                                  {k: arg() for k in kws}, **kw)
     if kind == "yield":
         time = rng.choice([["var", "only_in_time"], ["+", ["var", "<t>"], ["var", "<dt>"]], ["num", 0]])
-        return YieldState(expression=to_pym(g_num(rng, 2)), component_id="y", time=to_pym(time),
+        return YieldState(expression=arg(), component_id="y", time=to_pym(time),
                           time_id="fin", **kw)
     if kind == "fail":
         return FailStep(**kw)
@@ -273,7 +281,7 @@ def check_single(stmt, rng, rec):
     def f(*a, **k):
         tot = 1.0
         for v in list(a) + list(k.values()):
-            tot = tot + float(np.sum(v))
+            tot = tot + float(np.sum(np.asarray(v, dtype=float)))
         return tot
     for si in range(3):
         interp = NumpyInterpreter(dag, {"<func>f": f})
